@@ -13,7 +13,9 @@ from vp.calharness import SMALL_OPTS, make_builtin
 
 BUILTINS = ["HaltonSampler", "RandomUniformSampler", "RSequenceSampler", "BestBatchSampler", "GaussianProcessSampler",
             "RandomForestSampler", "XGBoostSampler", "ParticleSwarmSampler", "CORSSampler"]
-LOSSES = ["minkowski", "msm", "fourier", "gsl", "likelihood"]
+LOSSES = ["minkowski", "msm", "fourier", "gsl", "likelihood",
+          # the same classes with non-default options (an option value may be remembered as an object that does not survive pickling unchanged)
+          "msm_inv", "msm_std", "minkowski_p1", "fourier_ideal", "likelihood_scott", "gsl_small"]
 
 
 def toy_model(theta, N, seed):  # noqa: N803
@@ -49,6 +51,24 @@ class InfMixLoss:
 def make_loss(name):
     if name == "infmix":
         return InfMixLoss()
+    if name == "msm_inv":
+        from black_it.loss_functions.msm import MethodOfMomentsLoss
+        return MethodOfMomentsLoss(covariance_mat="inverse_variance")
+    if name == "msm_std":
+        from black_it.loss_functions.msm import MethodOfMomentsLoss
+        return MethodOfMomentsLoss(standardise_moments=True)
+    if name == "minkowski_p1":
+        from black_it.loss_functions.minkowski import MinkowskiLoss
+        return MinkowskiLoss(p=1)
+    if name == "fourier_ideal":
+        from black_it.loss_functions.fourier import FourierLoss, ideal_low_pass_filter
+        return FourierLoss(frequency_filter=ideal_low_pass_filter, f=0.5)
+    if name == "likelihood_scott":
+        from black_it.loss_functions.likelihood import LikelihoodLoss
+        return LikelihoodLoss(h="scott")
+    if name == "gsl_small":
+        from black_it.loss_functions.gsl_div import GslDivLoss
+        return GslDivLoss(nb_values=3, nb_word_lengths=2)
     if name == "minkowski":
         from black_it.loss_functions.minkowski import MinkowskiLoss
         return MinkowskiLoss()
